@@ -42,6 +42,15 @@ def c14(ctx):
     return obs, meta
 
 
+def make_lm(ctx):
+    """lock model whose notion of 'engine panic site' uses the same dischargers as PANIC (incl. SLICE)"""
+    try:
+        extra = slice_dischargers(ctx)
+    except Exception:
+        extra = ()
+    return r_lock.LockModel(ctx.prog, extra_dischargers=extra)
+
+
 def eval_model(ctx):
     if 'em' not in ctx.cache:
         ctx.cache['em'] = r_order.EvalModel(ctx.prog)
@@ -141,7 +150,12 @@ def c04(ctx):
     obs.append(floor('PANIC', 'exec-scope-bodies', len(bodies), 30, 'evaluator + handlers + accessors'))
     if ctx.tier == 'thorough' and ctx.config == 'base':
         obs += r_clippy.rule_clippy(ctx, bodies, sites)
-    return obs, {'analysed': {'scope_bodies': len(bodies), 'builtin_handlers': len(hs), 'panic_sites': len(sites)}}
+    # REC: evaluator recursion over the tree needs a depth guard (stack exhaustion is an abort, not an Err)
+    tm = r_term.TermModel(ctx.prog, parse_roles(ctx))
+    em = eval_model(ctx)
+    robs, nscc = r_term.rule_rec(tm, sorted(em.reach))
+    obs += robs
+    return obs, {'analysed': {'scope_bodies': len(bodies), 'builtin_handlers': len(hs), 'panic_sites': len(sites), 'recursive_sccs': nscc}}
 
 
 @prop('C18',
